@@ -48,6 +48,10 @@ type readWriteSegment struct {
 	lastCrc       uint32
 	txnFile       *os.File
 	txnMappedFile mmap.MMap
+	// Held in write mode while the segment is unmapped, in read mode by Flush(): the sync routine of the wal
+	// flushes the segment it has seen as current without holding the wal lock, and a rollover can close that
+	// segment in the meantime
+	mappingMutex sync.RWMutex
 
 	currentFileOffset uint32
 	writingIdx        []byte
@@ -167,6 +171,13 @@ func (ms *readWriteSegment) Append(offset int64, data []byte) error {
 }
 
 func (ms *readWriteSegment) Flush() error {
+	ms.mappingMutex.RLock()
+	defer ms.mappingMutex.RUnlock()
+
+	if ms.txnMappedFile == nil {
+		// The segment has been closed (rolled over) in the meantime: Close() has flushed it
+		return nil
+	}
 	return ms.txnMappedFile.Flush()
 }
 
@@ -177,6 +188,9 @@ func (*readWriteSegment) OpenTimestamp() time.Time {
 func (ms *readWriteSegment) Close() error {
 	ms.Lock()
 	defer ms.Unlock()
+
+	ms.mappingMutex.Lock()
+	defer ms.mappingMutex.Unlock()
 
 	err := multierr.Combine(
 		// Make the segment durable before it is unmapped: after a rollover, wal.Sync() only
